@@ -198,11 +198,59 @@ def check(tier: str) -> Result:
         res.add("C16.R3", eq.loc(), f"specs.{n}.__eq__", "equality compares every constructor parameter", not missing,
                 f"compares {sorted(compared)}" if not missing else f"does not compare {missing}: specs differing only there are equal")
         res.add("C16.R3", eq.loc(), f"specs.{n}.__eq__", "equality guards on its own class", guard == n, f"isinstance(other, {guard})")
+        tt_ok, tt_why = eq_truth_table(tree, ci, eq)
+        res.add("C16.R3", eq.loc(), f"specs.{n}.__eq__", "equal exactly when every constructor parameter is equal (truth table of the comparison skeleton)", tt_ok, tt_why)
         arr = array_kind_attrs(tree, ci)
         for attr, okr in sorted(compared.items()):
             if attr in arr:
                 res.add("C16.R3", eq.loc(), f"specs.{n}.__eq__", f"array comparison self.{attr} == other.{attr} is reduced before truth-value use", okr,
                         "reduced with all()/array_equal" if okr else "an element-wise array comparison is used directly as a truth value: raises for non-scalar values (sibling classes reduce it)")
+    # ------------------------------------------------------------------ R7 discrete specs: bounds derived from num_values
+    from ..normal import disjuncts, ge_form, linear
+    from .common import raise_exits as _rx
+    for n in ("DiscreteArray", "MultiDiscreteArray"):
+        ci = classes[n]
+        init = tree.find_method(ci, "__init__")
+        ia, ip, props = spec_model(tree, ci)
+        nv = ip.get("num_values")
+        mx = [uncopy(x) for x in ia.get(props.get("maximum") or "_maximum", [])]
+        mn = [uncopy(x) for x in ia.get(props.get("minimum") or "_minimum", [])]
+
+        def unwrap(t):
+            t = strip_cast(t)
+            while ext_name(t) in ("jax.numpy.asarray", "jax.numpy.array", "numpy.asarray", "builtins.int") and t.args[1]:
+                t = strip_cast(t.args[1][0])
+            return t
+        okx = False
+        whyx = f"maximum stored as {[txt(x, 4, 60) for x in mx]}"
+        if mx and nv is not None:
+            b, k = linear(unwrap(mx[-1]))
+            okx = b is not None and unwrap(b) is nv and k == -1
+        res.add("C16.R7", init.loc(), f"specs.{n}.__init__", "maximum = num_values - 1", okx, whyx)
+        okn = False
+        if mn:
+            z = unwrap(mn[-1])
+            okn = (z.kind == "const" and z.args[0] == 0) or (ext_name(z) in ("jax.numpy.zeros_like", "jax.numpy.zeros", "numpy.zeros_like") and True)
+        res.add("C16.R7", init.loc(), f"specs.{n}.__init__", "minimum = 0", okn, f"minimum stored as {[txt(x, 4, 60) for x in mn]}")
+        # constructor rejects num_values <= 0
+        vi = VFG(tree, Model(tree))
+        self_c = mk("self", ci.qual)
+        psi = [mk("param", init.qual, p_) for p_ in init.params[1:]]
+        vi.apply_func(init, self_c, ci, psi, {}, None, None)
+        rej = False
+        seen_tests = []
+        for fn_, node_, path_, _ in _rx(vi):
+            for t_, pol_, pf_ in path_:
+                if not pol_:
+                    continue
+                for d in disjuncts(t_):
+                    g = ge_form(d)
+                    seen_tests.append(txt(d, 3, 50))
+                    # num_values <= 0  <=>  0 >= num_values + 0 ; num_values < 1 <=> 0 >= num_values  (integers)
+                    if g is not None and g[0] is None and g[1] is not None and unwrap(g[1]) is psi[0] and g[2] == 0:
+                        rej = True
+        res.add("C16.R7", init.loc(), f"specs.{n}.__init__", "the constructor rejects num_values <= 0", rej,
+                "a raise is reached under num_values <= 0" if rej else f"no raise under `num_values <= 0` (raising tests: {seen_tests[:4]})")
     # ------------------------------------------------------------------ R4 validate
     av = classes["Array"].methods.get("validate")
     fv = classes["Array"].methods.get("_fail_validation")
@@ -542,6 +590,121 @@ def _pure_relay(e: ast.expr):
     if isinstance(e, ast.Call) and ast.unparse(e.func).split(".")[-1] in ("broadcast_to", "asarray", "array") and e.args:
         return _pure_relay(e.args[0])
     return None
+
+
+class _Undecidable(Exception):
+    pass
+
+
+def eq_truth_table(tree, ci: ClassInfo, eq: FuncInfo):
+    """Evaluates the boolean skeleton of __eq__ over the comparison atoms `self.p == other.p` (one boolean variable per
+    constructor parameter, whatever reduction wraps it) and the class guard isinstance(other, C): for operands of the
+    same kind the result must be the conjunction of ALL atoms (2^k assignments, k <= 8); for another kind it must be
+    NotImplemented / False.  Finite table evaluation of the code's own expression by the analyser; returns
+    (verdict or None when the skeleton leaves the understood sub-language, detail)."""
+    import itertools
+    v = VFG(tree, Model(tree))
+    self_t = mk("self", ci.qual)
+    other = mk("param", eq.qual, eq.params[1])
+    v.apply_func(eq, self_t, ci, [other], {}, None, None)
+    _, _, props = spec_model(tree, ci)
+    pub_of = {priv: pub for pub, priv in props.items() if priv is not None}
+
+    def pair(a: T, b: T):
+        for x, y in ((a, b), (b, a)):
+            x0, y0 = strip_cast(x), strip_cast(y)
+            if x0.kind == "attr" and x0.args[0] is self_t and y0.kind == "attr" and y0.args[0] is other:
+                nx, ny = pub_of.get(x0.args[1], x0.args[1]), pub_of.get(y0.args[1], y0.args[1])
+                if nx == ny:
+                    return nx
+        return None
+
+    atoms = set()
+
+    def ev(t: T, env):
+        t = uncopy(strip_cast(t))
+        k = t.kind
+        if k == "const" and isinstance(t.args[0], bool):
+            return t.args[0]
+        if k == "ext" and t.args[0].endswith("NotImplemented"):
+            return "NI"
+        if k == "bool":
+            vals = [ev(x, env) for x in t.args[1]]
+            if any(x == "NI" for x in vals):
+                raise _Undecidable("NotImplemented inside a boolean operation")
+            return all(vals) if t.args[0] == "and" else any(vals)
+        if k == "un" and t.args[0] in ("not", "~"):
+            x = ev(t.args[1], env)
+            if x == "NI":
+                raise _Undecidable("not NotImplemented")
+            return not x
+        if k == "bin" and t.args[0] in ("&", "|"):
+            a, b = ev(t.args[1], env), ev(t.args[2], env)
+            return (a and b) if t.args[0] == "&" else (a or b)
+        if k == "cmp" and t.args[0] in ("==", "!="):
+            a = pair(t.args[1], t.args[2])
+            if a is None:
+                raise _Undecidable(f"comparison {txt(t, 3, 60)}")
+            atoms.add(a)
+            return env[a] if t.args[0] == "==" else not env[a]
+        if k == "choice" and t.args[0] == "ifexp" and len(t.args[2]) == 2:
+            return ev(t.args[2][0], env) if ev(t.args[1], env) else ev(t.args[2][1], env)
+        n = ext_name(t)
+        if n == "builtins.isinstance" and len(t.args[1]) == 2 and t.args[1][0] is other:
+            return env["<guard>"]
+        if n in ("jax.numpy.array_equal", "numpy.array_equal") and len(t.args[1]) == 2:
+            a = pair(*t.args[1])
+            if a is None:
+                raise _Undecidable(f"array_equal {txt(t, 3, 60)}")
+            atoms.add(a)
+            return env[a]
+        if n in ("jax.numpy.equal", "numpy.equal") and len(t.args[1]) == 2:
+            a = pair(*t.args[1])
+            if a is not None:
+                atoms.add(a)
+                return env[a]
+        if n in ("jax.numpy.all", "numpy.all", "builtins.all", "builtins.bool", "jax.numpy.asarray", "numpy.asarray") and t.args[1]:
+            return ev(t.args[1][0], env)
+        if k == "call" and t.args[0].kind == "attr" and t.args[0].args[1] in ("all", "item") and not t.args[1]:
+            return ev(t.args[0].args[0], env)
+        raise _Undecidable(f"term {txt(t, 3, 60)}")
+
+    rets = [(path, val) for kind, fn, node, path, val in v.exits if kind == "return" and fn is eq]
+    if not rets:
+        return None, "no return found"
+    _, _, _props = spec_model(tree, ci)
+    init = tree.find_method(ci, "__init__")
+    params = init_params(init)
+    names = list(params)
+    try:
+        # discover atoms first (all-true assignment), then enumerate
+        def result(env):
+            for path, val in rets:
+                if all(bool(ev(t, env)) == pol for t, pol, _ in path):
+                    return ev(val, env) if val is not None else None
+            raise _Undecidable("no return path is taken")
+        bad = []
+        for g in (True, False):
+            for bits in itertools.product((True, False), repeat=len(names)):
+                env = dict(zip(names, bits))
+                env["<guard>"] = g
+                r = result(env)
+                if g:
+                    want = all(bits)
+                    if r != want:
+                        bad.append(f"same kind, {' '.join(n_ + ('=' if b else '!=') for n_, b in zip(names, bits))}: returns {r}, must be {want}")
+                else:
+                    if r not in ("NI", False):
+                        bad.append(f"other kind: returns {r}, must be NotImplemented / False")
+                if len(bad) >= 3:
+                    break
+        if bad:
+            return False, "; ".join(bad[:3])
+        return True, f"truth table over {names} (+ class guard): {2 ** (len(names) + 1)} rows, result = conjunction of all equalities"
+    except _Undecidable as e:
+        return None, f"skeleton not evaluated ({e})"
+    except KeyError as e:
+        return None, f"comparison of {e} which is not a constructor parameter"
 
 
 def eq_facts_vfg(tree, ci: ClassInfo, eq: FuncInfo):
